@@ -180,6 +180,9 @@ type OCase struct {
 	// ViaYAML: the configuration is written as a YAML file and read with config.Load, as main() does,
 	// instead of being built as a config.Config value
 	ViaYAML bool `json:"viayaml,omitempty"`
+	// Relay6: the DHCPv6 request arrives through that many Relay-Forward layers (what is sent is then
+	// the response returned last inside as many Relay-Reply layers)
+	Relay6 int `json:"relay6,omitempty"`
 }
 
 // GenO draws a configuration
@@ -225,6 +228,9 @@ func GenO(t *rapid.T) OCase {
 		}
 	}
 	c.ViaYAML = rapid.IntRange(0, 2).Draw(t, "via-yaml") == 0
+	if rapid.IntRange(0, 2).Draw(t, "relayed6") == 0 {
+		c.Relay6 = rapid.IntRange(1, 2).Draw(t, "relay6")
+	}
 	if c.ViaYAML {
 		// key case is folded by the YAML loader and an empty key is not a plugin name: keep to plain unknown names
 		for _, l := range [][]OEntry{c.L4, c.L6} {
@@ -409,6 +415,9 @@ func ExecO(c OCase) (res core.Result) {
 		invLog = nil
 		logMu.Unlock()
 		m := gen.Msg6Spec{Type: gen.M6Solicit, Xid: 0x130006, Client: 0}
+		for r := 0; r < c.Relay6; r++ {
+			m.Relays = append(m.Relays, gen.Relay6Spec{Type: gen.M6RelayForw, Hop: uint8(c.Relay6 - 1 - r), Link: "2001:db8:ffff::1", Peer: "fe80::1", IfaceID: "6966" + fmt.Sprintf("%02x", r)})
+		}
 		sent, pan := feed6(server.NewCapture6(h6, nil), m.Bytes(), &ipv6.ControlMessage{IfIndex: 1}, &net.UDPAddr{IP: net.ParseIP("2001:db8::9"), Port: 546})
 		if pan != nil {
 			res.Viol = core.Violate("C13/panic", "HandleMsg6 panicked: %v", pan)
@@ -425,6 +434,27 @@ func ExecO(c OCase) (res core.Result) {
 		}
 		if wantSent {
 			rep, err := dhcpv6.FromBytes(sent[0].Payload)
+			if err == nil && c.Relay6 > 0 {
+				depth := 0
+				for cur := rep; cur != nil && cur.IsRelay(); depth++ {
+					inner, ierr := cur.(*dhcpv6.RelayMessage).GetInnerMessage()
+					_ = inner
+					if ierr != nil {
+						break
+					}
+					next := cur.(*dhcpv6.RelayMessage).Options.RelayMessage()
+					cur = next
+				}
+				if depth != c.Relay6 {
+					res.Viol = core.Violate("C13/v6/wrong-response-sent", "chain %v: a request relayed %d times was answered inside %d relay layers", c.L6, c.Relay6, depth)
+					return
+				}
+				var im *dhcpv6.Message
+				im, err = rep.GetInnerMessage()
+				if err == nil {
+					rep = im
+				}
+			}
 			if err != nil || markers6(rep) != final {
 				res.Viol = core.Violate("C13/v6/wrong-response-sent", "chain %v: the reply carries other markers than the response returned last (%q, err %v)", c.L6, final, err)
 				return
